@@ -202,6 +202,14 @@ def check_c01(params, out):
     bad = []
     tr = out["trace"]
     n = params["n_workers"]
+    # ---- pause_trial reaches the backend-specific _pause_trial whatever status the trial is recorded with -----------
+    for call, t, status in out.get("status_after") or []:
+        if status == ("Paused" if call == "pause_trial" else "Stopped"):
+            continue
+        bad.append(("after %s(%d) returned the worker of the trial shows status %s: the backend-specific _%s was not "
+                    "called (the worker-side run is not paused, results it queued are not discarded)" % (call, t, status, call),
+                    dict(check="lifecycle", event="status_after_" + call, backend="scripted", status=status)))
+        break
     # ---- budget ---------------------------------------------------------------------------
     fetch_orders = [ev[1] for ev in tr if ev[0] == "b_fetch"]
     fi = 0
